@@ -88,6 +88,17 @@ CHECKS = [
                 'point, device-error type); generated screen-driving programs must present the same frame hashes on all engines.',
         'note': 'interactive pygame devices cannot be exercised (pygame absent); device writes outside segments are unspecified',
     },
+    {
+        'property_id': 'C12', 'level': 'exploration', 'design_ref': 'DESIGN.md 4 C12',
+        'technique': 'runtime monitoring: table-driven oracle (frozen operator table + unbounded integers) over assembled words; exhaustive operator pairs, random trees x folding stages',
+        'text': 'Every ordered pair of the 19 binary operators x 343 operand triples (incl. negatives and a >64-bit value), every '
+                'unary x binary shape, ?: nests and every literal notation are assembled unparenthesised and the words observed '
+                'through 180 bits + sign + overflow must equal the value the frozen operator table (spec/operators.json) gives; '
+                'random trees to depth 6 are unparsed with minimal/random/full parentheses with every identifier bound as a '
+                'parse-time constant, a macro parameter or a label expression, so that all three folding stages must agree.',
+        'note': 'the operator table is my transcription of the grammar at the pinned commit and the documented examples; '
+                'expressions without a value (x/0, negative shifts) are C14 material',
+    },
 ]
 
 _TODO = 'check not built yet in this session (work in progress; see DESIGN.md for the planned monitor)'
